@@ -100,6 +100,17 @@ func liveGuardsOf(p *Prog, fn *ssa.Function) *liveGuards {
 			case calleeIs(&call.Call, modPath, "Record", "IsExpired"):
 				base = recordBase(pathOf(call.Call.Args[0]))
 			default:
+				// a predicate that is true whenever its record is a tombstone or expired
+				// (isDeletedOrExpired(e)): its false edge establishes both guards
+				if cal := call.Call.StaticCallee(); cal != nil && len(call.Call.Args) == 1 && deadPredicate(p, cal) {
+					b := recordBase(pathOf(call.Call.Args[0]))
+					si := 1
+					if ca.Neg {
+						si = 0
+					}
+					g.notDel[b] = append(g.notDel[b], succEdge{i.Block(), si})
+					g.notExp[b] = append(g.notExp[b], succEdge{i.Block(), si})
+				}
 				continue
 			}
 			si := 1 // edge on which IsExpired is false
@@ -419,6 +430,10 @@ func (a *liveAnalysis) appendsGuarded(fn *ssa.Function) (bool, int, string, ssa.
 		}
 		for _, e := range elems {
 			if ok, why := a.guardedAt(fn, e, in.Block()); !ok && bad == "" {
+				// the element belongs to a record this function is handed: the guards may be at the call sites
+				if a.guardedAtCallers(fn, e, 0) {
+					continue
+				}
 				bad, badIn = "appends an entry without the "+why, in
 			}
 		}
@@ -437,6 +452,12 @@ func (a *liveAnalysis) valueLive(fn *ssa.Function, v ssa.Value, blk *ssa.BasicBl
 		}
 		switch x := r.(type) {
 		case *ssa.Parameter:
+			// an entry handed in and checked here (a "return it if it is live" helper)
+			if !isEntrySliceType(x.Type()) {
+				if ok, _ := a.guardedAt(fn, x, blk); ok {
+					continue
+				}
+			}
 			// the caller's slice being extended: judged at the call site (callers pass nil / live values)
 			if isEntrySliceType(x.Type()) {
 				ok := true
@@ -612,7 +633,7 @@ func ruleLive(c *Ctx) {
 			c.check(okb, fnName(f), fmt.Sprintf("IsExpired call #%d receives (TTL, timestamp) of one record", n), c.P.ipos(ci), "", "IsExpired is not called with the TTL and timestamp of the same record, in that order")
 		})
 	}
-	c.minInstances("IsExpired call sites", n, 5)
+	c.minInstances("IsExpired call sites", n, 3)
 }
 
 // ---------------------------------------------------------------------------
